@@ -166,9 +166,10 @@ def case_coq(c, it_factory=Intern):
         elif k == "list":
             ss = []
             for s in o.get("series") or []:
-                parts = s.split("\x00")
-                tags = list(zip(parts[1::2], parts[2::2]))
-                ss.append(series_coq(parts[0], tags, it))
+                if s.get("bad"):
+                    ss.append(series_coq("\x00unresolved " + s["bad"], [], it))
+                else:
+                    ss.append(series_coq(s["mst"], s.get("tags") or [], it))
             keys = [str(it.str(x)) for x in o.get("keys") or []]
             vals = ["(%d, %s)" % (it.str(kk), coq_list([str(it.str(v)) for v in vv])) for kk, vv in sorted((o.get("values") or {}).items())]
             ops.append("CList %d %s %s %s" % (it.str(o["mst"]), coq_list(ss), coq_list(keys), coq_list(vals)))
@@ -218,8 +219,8 @@ def sources_of_failure(cv, f):
             if a["o"] in ("re", "nre"):
                 for p, v in cv.discrepant(opi, o["mst"], a):
                     src.add(classify_pair(cv, p, v))
-                if a["o"] == "nre" and f.get("path") == 1 and cv.tab[a["v"]].get("", (False, False, False))[2] and x is not a:
-                    src.add(F_NIL)
+        if f.get("path") == 1 and opi in getattr(cv, "nil_ops", ()):
+            src.add(F_NIL)
         if dups:
             src.add(F_DUP)
         if not src:
@@ -235,7 +236,8 @@ def parse_mism(out):
     m = re.search(r"M\s*=\s*(.*?)\s*:\s*list", out, re.S)
     if not m:
         return None
-    return [(int(a), int(b), int(c)) for a, b, c in re.findall(r"\((\d+),\s*(\d+),\s*(\d+)\)", m.group(1))]
+    return [(int(a), int(b), int(c)) for a, b, c in
+            re.findall(r"\((\d+)(?:%\w+)?,\s*(\d+)(?:%\w+)?,\s*(\d+)(?:%\w+)?\)", m.group(1))]
 
 
 def main(ck):
@@ -299,22 +301,43 @@ def main(ck):
 
     evaluated = False
     mm = {}
+    if ok and cases:
+        # canary: a deliberately corrupted copy of the first case (an insert id off by one, a query answer with an extra id)
+        # must be reported by the evaluator at exactly those ops - guards the whole evaluation pipeline against silent passes
+        can = json.loads(json.dumps(cases[0]))
+        marks = []
+        for k, o in enumerate(can["ops"]):
+            if o["op"] == "insert" and not any(c == 1 for _, c in marks):
+                o["id"] = o.get("id", 0) + 1
+                marks.append((k, 1))
+            elif o["op"] == "query" and not any(c == 5 for _, c in marks):
+                o["ids2"] = (o.get("ids2") or []) + [7]
+                marks.append((k, 5))
+        rendered.append(case_coq(can))
+        got = evaluate([len(rendered) - 1], True, True, "canary")
+        rendered.pop()
+        found = set(got.get(len(cases), [])) if got is not None else set()
+        if not marks or not set(marks) <= found:
+            ck.broken.append("C10 evaluator canary: corrupted observations %s were not all reported (got %s)" % (marks, sorted(found)))
+            ok = False
     if ok:
         allidx = list(range(len(cases)))
         m_tt = evaluate(allidx, True, True, "cur")
         m_ff = evaluate(allidx, False, False, "rep")
         if m_tt is not None and m_ff is not None:
             evaluated = True
-            both = [i for i in allidx if i in m_tt and i in m_ff]
+            both = [i for i in allidx if (i in m_tt and i in m_ff) or
+                    any(f["kind"] == "search-not-bruteforce" and f.get("path") == 1 for f in cases[i]["oracle"])]
             m_tf = evaluate(both, True, False, "mix1") if both else {}
             m_ft = evaluate(both, False, True, "mix2") if both else {}
             if m_tf is None or m_ft is None:
                 evaluated = False
             else:
                 for i in allidx:
-                    variants = [m_tt.get(i, []), m_ff.get(i, [])]
+                    variants = {(True, True): m_tt.get(i, []), (False, False): m_ff.get(i, [])}
                     if i in both:
-                        variants += [m_tf.get(i, []), m_ft.get(i, [])]
+                        variants[(True, False)] = m_tf.get(i, [])
+                        variants[(False, True)] = m_ft.get(i, [])
                     mm[i] = variants
     # ---- verdicts
     nontriv = set()
@@ -322,6 +345,7 @@ def main(ck):
     pat_hist = {}
     nq = 0
     validated = 0
+    nviol = 0
     stale = {F_ANCH, F_EXPL, F_ESC, F_NIL, F_DUP}
     for ci, c in enumerate(cases):
         cv = CaseView(c)
@@ -333,15 +357,27 @@ def main(ck):
                     pat_hist[a["o"]] = pat_hist.get(a["o"], 0) + 1
         if c["nontrivial"]:
             nontriv.add(json.dumps([(o["op"], o.get("mst"), o.get("tags"), o.get("expr")) for o in c["ops"]], sort_keys=True))
-        variants = mm.get(ci, [[(0, 0)]])
-        corr_ok = evaluated and any(not v for v in variants)
-        m_cur, m_rep = variants[0], variants[1] if len(variants) > 1 else variants[0]
+        variants = mm.get(ci, {(True, True): [(0, 0)]})
+        matching = [k for k, v in variants.items() if not v]
+        corr_ok = evaluated and bool(matching)
+        m_cur, m_rep = variants.get((True, True), []), variants.get((False, False), [])
+        # ops at which the nil handling of the show-series path is what makes the model reproduce the implementation
+        nil_ops = set()
+        for (cl, cn) in matching:
+            if cn and (cl, False) in variants:
+                nil_ops |= {b for b, code in variants[(cl, False)] if code == 3}
+        cv.nil_ops = nil_ops if all(cn for _, cn in matching) else set()
+        if os.environ.get("C10_DEBUG") and c["oracle"]:
+            ck.log("case", ci, "variants", {k: v[:3] for k, v in variants.items()}, "nil_ops", cv.nil_ops)
         if corr_ok:
             validated += 1
         for f in c["oracle"]:
             src = sources_of_failure(cv, f) if corr_ok else {None}
             bad = [s for s in src if s is None or not ck.match_finding(s)]
             if bad or not src:
+                nviol += 1
+                if nviol > 4:        # keep the replay directory readable: the first few failing inputs are enough
+                    continue
                 ck.violation({"kind": "direct-oracle", "what": f["what"], "failure": f, "case": {"ops": c["ops"]},
                               "atoms": c["atoms"], "model_reproduces": corr_ok, "sources": sorted(str(s) for s in src)})
             else:
@@ -371,5 +407,6 @@ def main(ck):
     ck.cov["op_histogram"] = hist
     ck.cov["atom_histogram"] = pat_hist
     ck.cov["corpus_cases"] = ncorp
+    ck.cov["oracle_failures_outside_every_signature"] = nviol
     ck.cov["open_findings_not_reproduced"] = sorted(s for s in stale if ck.match_finding(s))
     ck.cov["samples"] = [{"ops": c["ops"][:6]} for c in cases[ncorp:ncorp + 2]]
